@@ -38,7 +38,11 @@ def gen_spec(rng, variant, tier):
     n = lags + leads + rng.randint(1, 6)
     sp = {'type': rng.choice(spans.TYPES), 'n': n, 'origin': rng.choice([0, 1, 3, 7])}
     init = {nm: [rng.choice(DYADS) for _ in range(n)] for nm in endo + exo}
-    return {'kind': 'scripted', 'endo': endo, 'exo': exo, 'check': check, 'lags': lags, 'leads': leads, 'span': sp, 'init': init}
+    spec = {'kind': 'scripted', 'endo': endo, 'exo': exo, 'check': check, 'lags': lags, 'leads': leads, 'span': sp, 'init': init}
+    if variant in ('solver', 'solver_faults') and rng.random() < 0.2:
+        # the extension mixins must be transparent to the solver when their features are not used
+        spec['mixins'] = rng.sample(['alias', 'tracer', 'pandas'], rng.randint(1, 3))
+    return spec
 
 
 def gen_opts(rng, faults):
@@ -188,11 +192,27 @@ def generate(rng, idx, tier, variant):
         return gen_parser_schedule(rng, idx, tier)
     spec = gen_spec(rng, variant, tier)
     ops = []
-    for _ in range(rng.choice([1, 1, 2, 3])):
-        ops.extend(gen_solve_op(rng, spec, variant, idx, tier))
-        if rng.random() < 0.3:
-            names = spec['endo'] + spec['exo']
-            ops.append({'op': 'poke', 'name': rng.choice(names), 'pos': rng.randrange(spec['span']['n']), 'v': rng.choice(DYADS)})
+    two = rng.random() < 0.3  # a sibling instance of the same class takes part in the history
+    last_t = None
+    for _ in range(rng.choice([1, 1, 2, 3, 3, 6])):
+        new_ops = gen_solve_op(rng, spec, variant, idx, tier)
+        who = rng.randrange(2) if two else 0
+        for o in new_ops:
+            o['obj'] = who
+            if o['op'] in ('solve_t', 'solve_period'):
+                # history: re-solve the period of the previous call (after a failure, a skip, a success) now and then
+                if last_t is not None and rng.random() < 0.35:
+                    o['t'] = last_t
+                last_t = o['t']
+        ops.extend(new_ops)
+        r = rng.random()
+        names = spec['endo'] + spec['exo']
+        if r < 0.25:
+            ops.append({'op': 'poke', 'obj': who, 'name': rng.choice(names), 'pos': rng.randrange(spec['span']['n']), 'v': rng.choice(DYADS)})
+        elif r < 0.35:
+            ops.append({'op': 'copy', 'obj': who, 'route': rng.choice(['copy', 'deepcopy'])})
+        elif r < 0.42:
+            ops.append({'op': 'add_variable', 'obj': who, 'name': f'N{len(ops)}', 'v': rng.choice(DYADS)})
     return {'spec': spec, 'ops': ops}
 
 
@@ -234,6 +254,12 @@ def build(fsic, spec):
     span = spans.make_span(spec['span'])
     if spec['kind'] == 'scripted':
         cls = probes.make_scripted(fsic, spec)
+        if spec.get('mixins'):
+            from fsic.extensions import AliasMixin, PandasIndexFeaturesMixin, TracerMixin
+
+            table = {'alias': AliasMixin, 'tracer': TracerMixin, 'pandas': PandasIndexFeaturesMixin}
+            attrs = {'ALIASES': {'ALT': spec['endo'][0], 'ALT2': 'ALT'}} if 'alias' in spec['mixins'] else {}
+            cls = type('Mixed', tuple(table[k] for k in spec['mixins']) + (cls,), attrs)
         m = probes.new_scripted_instance(cls, span, spec['init'])
         return m, span, list(spec['endo']), list(spec['check']), list(spec['exo'])
     symbols = fsic.parse_model(spec['script'])
@@ -358,8 +384,34 @@ def execute(schedule, ctx):
             return
         raise
     n = len(span)
+    pool = {0: m}
     for step, op in enumerate(schedule['ops']):
         ctx.step = step
+        who = op.get('obj', 0)
+        if who not in pool:
+            # a sibling: a second instance of the very same class, on its own span object
+            sib = type(pool[0])(spans.make_span(spec['span']))
+            for nm, vals in spec['init'].items():
+                sib.__dict__['_' + nm][:] = np.array([probes.fval(v) for v in vals], dtype=float)
+            probes.attach_ctl(sib)
+            pool[who] = sib
+            ctx.probe('sibling-instance-in-history')
+        m = pool[who]
+        if op['op'] == 'copy':
+            import copy as _copy
+
+            pool[who] = m.copy() if op['route'] == 'copy' else _copy.deepcopy(m)
+            ctx.probe('history:copy')
+            ctx.log(step, 'copy')
+            ctx.outcome('copy', 'ok')
+            continue
+        if op['op'] == 'add_variable':
+            if op['name'] not in m.__dict__['index']:
+                m.add_variable(op['name'], op['v'])
+            ctx.probe('history:add_variable')
+            ctx.log(step, 'add_variable')
+            ctx.outcome('add_variable', 'ok')
+            continue
         if op['op'] == 'poke':
             if op['name'] in m.__dict__['index'] and 0 <= op['pos'] < n:
                 m.__dict__['_' + op['name']][op['pos']] = probes.fval(op['v'])
